@@ -28,10 +28,10 @@ ASSUMPTIONS = [
 BUDGET = {"quick": 60, "thorough": 500}
 ROUNDS = {"thorough": 10}
 FLOORS = {"loads": {"quick": 1500, "thorough": 15000}, "expected_reject": 400, "expected_accept": 400, "graph_walks": 300,
-          "sharing_updates": 150, "factory_round_trips": 60, "faults": 10}
+          "sharing_updates": 150, "factory_round_trips": 60, "faults": 11, "loads_through_main": 100}
 
 FAULTS = ["none", "none", "dup-sibling", "dup-cousin", "dup-ancestor", "dup-toplevel", "dup-taxon-parameter", "dangling", "forward",
-          "range-missing", "range-ok", "comments", "ignored", "plate", "nested-plate"]
+          "range-missing", "range-ok", "comments", "ignored", "plate", "nested-plate", "ignored-plate"]
 
 
 def cases(tier, seed):
@@ -288,6 +288,60 @@ def add_noise(top, rng, kind):
 
 
 # ---------------------------------------------------------------- real loader + observations
+def load_through_main(top):
+    """The specification written to a file and handed to the real entry point (`torchtree file --dry`): the pre-processing order
+    (comments, plates, checkpoints) is main()'s own.  The registry is captured by wrapping process_objects in main's module.
+    -> ('ACCEPT', dic) | ('REJECT', message) | ('ERROR', exception)"""
+    import contextlib
+    import io
+    import logging
+    import os
+    import sys
+    import tempfile
+
+    import torch
+    import torchtree.torchtree as entry
+
+    captured = {}
+    orig = entry.process_objects
+
+    def wrapped(element, dic, *a, **k):
+        captured["dic"] = dic
+        return orig(element, dic, *a, **k)
+
+    errors = []
+
+    class H(logging.Handler):
+        def emit(self, rec):
+            if rec.levelno >= logging.ERROR:
+                errors.append(rec.getMessage())
+
+    fd, path = tempfile.mkstemp(prefix="vt-c13-", suffix=".json", dir="/dev/shm" if os.path.isdir("/dev/shm") else None)
+    with os.fdopen(fd, "w") as fp:
+        json.dump(top, fp)
+    h = H()
+    logging.getLogger().addHandler(h)
+    argv, dtype = sys.argv, torch.get_default_dtype()
+    sys.argv = ["torchtree", path, "--dry"]
+    entry.process_objects = wrapped
+    try:
+        with contextlib.redirect_stdout(io.StringIO()), contextlib.redirect_stderr(io.StringIO()):
+            entry.main()
+    except SystemExit as e:
+        return "ERROR", e
+    except Exception as e:
+        return "ERROR", e
+    finally:
+        entry.process_objects = orig
+        sys.argv = argv
+        torch.set_default_dtype(dtype)
+        logging.getLogger().removeHandler(h)
+        os.remove(path)
+    if errors:
+        return "REJECT", errors[0]
+    return "ACCEPT", captured.get("dic", {})
+
+
 def load_as_main(top):
     """-> ('ACCEPT', dic) | ('REJECT', message) | ('ERROR', exception)"""
     from torchtree.core.utils import JSONParseError
@@ -351,6 +405,14 @@ def run_case(case):
             je["distributions"].insert(pos + i, {"id": "pd.%d" % i, "type": "Distribution", "distribution": "torch.distributions.Normal",
                                                  "x": {"id": "px.%d" % i, "type": "Parameter", "tensor": [0.3]}, "parameters": {"loc": 0.0, "scale": 1.0}})
         effective = expanded
+    elif fault == "ignored-plate":
+        # a plate switched off with "ignore": true leaves no trace (no clone is built)
+        plate = {"id": "plate", "type": "torchtree.Plate", "range": "0:%d" % int(rng.integers(1, 4)), "var": "i", "ignore": True,
+                 "object": {"id": "pd.${i}", "type": "Distribution", "distribution": "torch.distributions.Normal", "x": {"id": "px.${i}", "type": "Parameter", "tensor": [0.3]},
+                            "parameters": {"loc": 0.0, "scale": 1.0}}}
+        jt = [d for t in top for d in walk_defs(t) if d["id"] == jid][0]
+        jt["distributions"].insert(int(rng.integers(len(jt["distributions"]) + 1)), plate)
+        effective = clean
     elif fault == "nested-plate":
         # a plate whose object template holds a list with another plate; also a second plate in the same list
         k, m = int(rng.integers(1, 4)), int(rng.integers(1, 3))
@@ -377,7 +439,10 @@ def run_case(case):
         top, _ = inject(fault, top, rng)
         effective = top
     expected, why = interpret(copy.deepcopy(effective))
-    got, payload = load_as_main(top)
+    through_main = fault in ("comments", "ignored", "plate", "nested-plate", "ignored-plate") and case["seed"] % 2 == 0
+    if through_main:
+        C["loads_through_main"] = 1
+    got, payload = load_through_main(top) if through_main else load_as_main(top)
     C["loads"] += 1
     C["expected_" + expected.lower()] += 1
     detail = {"specification": top, "expected": expected, "reason": why}
